@@ -1,19 +1,80 @@
 (* C02 - verification accepts exactly what FIPS 204 Verify accepts.
 
-   FULL STATEMENT (not yet proved as one theorem):
-     forall H P pkb M ctx sigb, len pkb = PK_LEN P -> len sigb = SIG_LEN P ->
-       exists pk, pk_try_from_bytes H P pkb = Ok pk /\
-                  verify H P pk M sigb ctx = Ok b  <->  Spec.Verify H P pkb M sigb ctx = Some b
-     (and the same for hash_verify / HashVerify, internal_verify / Verify_internal).
-   What is proved here are the clauses that do not need the NTT/codec refinement layer; the
-   remaining composition is tracked in DESIGN.md section 9 and is, until then, decided by the
-   differential streams of tools/streams.py (real code vs the extracted Spec.Verify). *)
+   The three theorems below are the FULL statement: for every hash family satisfying the length laws,
+   every parameter set, every public-key byte string of PK_LEN bytes, every signature byte string of
+   SIG_LEN bytes, every message, every context (any length) and every pre-hash function, deserialising
+   the key succeeds and the model of the crate's Verifier::verify / hash_verify / _internal_verify
+   returns exactly what the transcription of FIPS 204 Algorithm 3 / 5 / 8 returns (Spec/SpecMLDSA.v).
+   `res_fuel` maps the transcription's `None` (the finite squeeze buffer given to a rejection sampler
+   ran out; the real XOF is unbounded) to the model's OutOfFuel; in particular the model never returns
+   Panic or Err on this path (used for C13), so checked and release builds agree.
+   The four rejection clauses of the property are corollaries about the transcription. *)
+Require Import List ZArith Lia. Import ListNotations.
 Require Import F204.Base.Util F204.Base.Mach F204.Gen.Params F204.Gen.Guards F204.Gen.Oids
-  F204.Hash.HashIface F204.Impl.Hashing F204.Impl.MlDsa F204.Impl.Api F204.Spec.SpecMLDSA F204.Proofs.ApiGuards.
+  F204.Hash.HashIface F204.Impl.Hashing F204.Impl.MlDsa F204.Impl.Api F204.Spec.SpecConv F204.Spec.SpecSample F204.Spec.SpecMLDSA F204.Proofs.ApiGuards
+  F204.Proofs.BitPackProofs F204.Proofs.SampleRefine F204.Proofs.VerifyRefine.
 Open Scope Z_scope.
 
+Theorem C02_verify_is_FIPS204_Verify : forall H, HashLaws H -> forall P, In P all_params ->
+  forall pkb sigma M ctx, bytes_ok pkb -> zlen pkb = p_pk_len P -> bytes_ok sigma -> zlen sigma = p_sig_len P ->
+  exists pk, pk_try_from_bytes H P pkb = Ok pk /\
+    verify H P pk M sigma ctx = res_fuel (Verify H P pkb M sigma ctx).
+Proof.
+  intros H HL P HP pkb sigma M ctx Hbp Hlp Hbs Hls.
+  destruct (expand_public_ok H P HP pkb Hbp Hlp) as (pk & Epk & _). exists pk. split; [exact Epk|].
+  exact (verify_refines H HL P HP pkb sigma pk M ctx Hbp Hlp Hbs Hls Epk).
+Qed.
+
+Theorem C02_hash_verify_is_FIPS204_HashVerify : forall H, HashLaws H -> forall P, In P all_params ->
+  forall pkb sigma M ctx ph, bytes_ok pkb -> zlen pkb = p_pk_len P -> bytes_ok sigma -> zlen sigma = p_sig_len P ->
+  exists pk, pk_try_from_bytes H P pkb = Ok pk /\
+    hash_verify H P pk M sigma ctx ph = res_fuel (HashVerify H P pkb M sigma ctx (ph_to_spec ph)).
+Proof.
+  intros H HL P HP pkb sigma M ctx ph Hbp Hlp Hbs Hls.
+  destruct (expand_public_ok H P HP pkb Hbp Hlp) as (pk & Epk & _). exists pk. split; [exact Epk|].
+  exact (hash_verify_refines H HL P HP pkb sigma pk M ctx ph Hbp Hlp Hbs Hls Epk).
+Qed.
+
+Theorem C02_internal_verify_is_FIPS204_Verify_internal : forall H, HashLaws H -> forall P, In P all_params ->
+  forall pkb sigma M ctx, bytes_ok pkb -> zlen pkb = p_pk_len P -> bytes_ok sigma -> zlen sigma = p_sig_len P ->
+  exists pk, pk_try_from_bytes H P pkb = Ok pk /\
+    internal_verify H P pk M sigma ctx =
+      if 255 <? zlen ctx then Ok false else res_fuel (Verify_internal H P pkb M sigma).
+Proof.
+  intros H HL P HP pkb sigma M ctx Hbp Hlp Hbs Hls.
+  destruct (expand_public_ok H P HP pkb Hbp Hlp) as (pk & Epk & _). exists pk. split; [exact Epk|].
+  destruct (255 <? zlen ctx) eqn:E.
+  - unfold internal_verify. change ctx_max_internal_verify with 255. now rewrite E.
+  - apply Z.ltb_ge in E. exact (internal_verify_refines H HL P HP pkb sigma pk M ctx Hbp Hlp Hbs Hls Epk E).
+Qed.
+
+(* the pre-hash table used above is FIPS 204's, not the crate's: ph_to_spec is the identity on names *)
+Check ph_to_spec : Ph -> PH.
+
+(* the four "in particular" clauses, as consequences for the model *)
+Theorem C02_rejections : forall H, HashLaws H -> forall P, In P all_params ->
+  forall pkb sigma M ctx pk, bytes_ok pkb -> zlen pkb = p_pk_len P -> bytes_ok sigma -> zlen sigma = p_sig_len P ->
+  pk_try_from_bytes H P pkb = Ok pk ->
+  verify H P pk M sigma ctx = Ok true ->
+  zlen ctx <= 255 /\
+  exists c_tilde z h,
+    sigDecode P sigma = (c_tilde, z, Some h) /\                       (* hint encoding well formed *)
+    infnorm z < p_gamma1 P - p_beta P /\                              (* response norm strictly below the bound *)
+    exists w1e, c_tilde = h_shake256 H (h_shake256 H (h_shake256 H pkb 64 ++ M_pure M ctx) 64 ++ w1e) (Z.to_nat (p_lambda_div4 P)).
+Proof.
+  intros H HL P HP pkb sigma M ctx pk Hbp Hlp Hbs Hls Epk Hv.
+  rewrite (verify_refines H HL P HP pkb sigma pk M ctx Hbp Hlp Hbs Hls Epk) in Hv.
+  unfold Verify in Hv. destruct (255 <? zlen ctx) eqn:Ec; [discriminate|]. apply Z.ltb_ge in Ec. split; [exact Ec|].
+  rewrite (Verify_internal_core H P) in Hv. unfold spec_core in Hv.
+  destruct (pkDecode (p_k P) pkb) as [rho t1]. destruct (sigDecode P sigma) as [[c_tilde z] [h|]]; [|discriminate].
+  exists c_tilde, z, h. split; [reflexivity|].
+  destruct (ExpandA H P rho); [|discriminate]. destruct (SampleInBall H (p_tau P) c_tilde); [|discriminate].
+  cbn [res_fuel] in Hv. injection Hv as Hv. apply andb_prop in Hv as [Hn Hc]. apply Z.ltb_lt in Hn. split; [exact Hn|].
+  eexists. apply list_eqb_eq in Hc. exact Hc.
+Qed.
+
 (* contexts longer than 255 bytes: model and FIPS 204 both say false, in every mode *)
-Theorem C02_long_ctx_rejected_partial : forall H P pk pkb M sig ctx ph sph,
+Theorem C02_long_ctx_rejected : forall H P pk pkb M sig ctx ph sph,
   255 < zlen ctx ->
   verify H P pk M sig ctx = Ok false /\ hash_verify H P pk M sig ctx ph = Ok false /\
   Verify H P pkb M sig ctx = Some false /\ HashVerify H P pkb M sig ctx sph = Some false.
@@ -25,4 +86,8 @@ Proof.
   - unfold HashVerify. assert (E : (255 <? zlen ctx) = true) by now apply Z.ltb_lt. now rewrite E.
 Qed.
 
-Print Assumptions C02_long_ctx_rejected_partial.
+Print Assumptions C02_verify_is_FIPS204_Verify.
+Print Assumptions C02_hash_verify_is_FIPS204_HashVerify.
+Print Assumptions C02_internal_verify_is_FIPS204_Verify_internal.
+Print Assumptions C02_rejections.
+Print Assumptions C02_long_ctx_rejected.
